@@ -125,8 +125,9 @@ def sensitivity(only=None, with_baseline=False):
             if os.path.isfile(meta):
                 with open(meta) as f:
                     m = json.load(f)
+                patch = os.path.join(sd, n, m.get("patch_for_current_tree", "patch.diff"))
                 for prop in m.get("detected_by", [m["property"]]):
-                    dirs.append((os.path.join(sd, n, "patch.diff"), prop, "seeded/%s" % n))
+                    dirs.append((patch, prop, "seeded/%s" % n))
     failed = 0
     for diff, prop, name in dirs:
         if only and only not in name:
